@@ -59,7 +59,8 @@ fn owns_c12(op: &Op) -> bool {
     matches!(op, Op::SetMode(..) | Op::ResetMode(..))
 }
 fn owns_c13(op: &Op) -> bool {
-    matches!(op, Op::InsertCharacters(_) | Op::DeleteCharacters(_))
+    // Draw: only in insert mode, where it performs an implicit ICH (decided per step)
+    matches!(op, Op::InsertCharacters(_) | Op::DeleteCharacters(_) | Op::Draw(_))
 }
 fn owns_c14(op: &Op) -> bool {
     matches!(op, Op::SaveCursor | Op::RestoreCursor)
@@ -102,6 +103,9 @@ fn tune_c04(p: &mut Profile, _r: &mut Rng) {
 }
 fn tune_editor(p: &mut Profile, _r: &mut Rng) {
     p.kinds = [30, 8, 50, 3, 6, 3];
+}
+fn tune_c13(p: &mut Profile, _r: &mut Rng) {
+    p.kinds = [25, 20, 45, 3, 5, 2];
 }
 
 pub const STEP_PROPS: &[StepProp] = &[
@@ -166,7 +170,7 @@ pub const STEP_PROPS: &[StepProp] = &[
         rule: "one case = one seeded wiring-Q run over marker rows; ICH/DCH with counts {absent,0,1,..columns+1,9999} at every column incl. pending wrap, never-written rows, ICH/DCH/IRM-draw/EL interleavings on one row followed by paints and grow resizes; judged by step relations ICH/DCH (list splice on the visible row, cursor and other rows unchanged)",
         quick_runs: 400_000,
         thorough_runs: 10_000_000,
-        tune: tune_editor,
+        tune: tune_c13,
     },
     StepProp {
         id: "C14",
@@ -232,6 +236,8 @@ struct StepObs<'a> {
     twin_prev: Option<Snapshot>,
     /// owned operations as the parser delivered them (Feeder actor only), lowered, in order
     parser_events: Vec<Op>,
+    /// was a snapshot taken for the operation being judged (conditional ownership of draw)
+    have_snap: bool,
     /// C14: the history oracle - the stack of cursor states as DECSC saw them. Only DECSC and
     /// DECRC may change the real stack; every other operation (resize included, which pushes
     /// and pops a savepoint itself) must leave it exactly as it was.
@@ -580,8 +586,30 @@ fn identity_copy(s: &Screen) -> Screen {
 }
 
 impl<'a> Observer for StepObs<'a> {
-    fn needs_snap(&self, _actor: Actor, op: &Op) -> bool {
-        (self.sp.owns)(&op.lower())
+    fn needs_snap(&self, _actor: Actor, op: &Op, screen: &Screen) -> bool {
+        let low = op.lower();
+        if !(self.sp.owns)(&low) {
+            return false;
+        }
+        // conditional ownership of draw: decided on the live screen so that the common case
+        // costs no snapshot
+        if let Op::Draw(t) = &low {
+            if self.sp.id == "C13" {
+                return screen.mode.contains(&memterm::modes::IRM);
+            }
+            if self.sp.id == "C06" {
+                let bottom = screen.margins.map(|m| m.bottom).unwrap_or(screen.lines.saturating_sub(1));
+                let reach = screen.cursor.x as u64 + 2 * t.chars().count() as u64;
+                return screen.mode.contains(&memterm::modes::DECAWM)
+                    && reach > screen.columns as u64
+                    && screen.cursor.y <= bottom
+                    && screen.cursor.y as u64 + reach / (screen.columns.max(1) as u64) >= bottom as u64;
+            }
+        }
+        true
+    }
+    fn before(&mut self, _idx: u64, actor: Actor, op: &Op, screen: &Screen) {
+        self.have_snap = self.needs_snap(actor, op, screen);
     }
     fn init(&mut self, screen: &Screen, snap: &Snapshot) -> Result<(), Violation> {
         if self.sp.id == "C18" {
@@ -652,6 +680,19 @@ impl<'a> Observer for StepObs<'a> {
         }
         if ctx.actor == Actor::Feeder {
             self.parser_events.push(low.clone());
+        }
+        if !self.have_snap {
+            // conditionally owned draw that does not meet the condition: no snapshot was taken
+            return Ok(());
+        }
+        // C13 owns draw only in insert mode (the implicit ICH)
+        if self.sp.id == "C13" {
+            if let Op::Draw(_) = &low {
+                if !ctx.pre.has(memterm::modes::IRM) {
+                    return Ok(());
+                }
+                self.cov.hit("probe_insert_mode_draw_judged");
+            }
         }
         // C06 owns draw only where it scrolls (autowrap at the bottom margin)
         if self.sp.id == "C06" {
@@ -771,7 +812,7 @@ impl Property for StepProp {
             [1, k, l, c] if *l >= 1 && *c >= 1 => vec![(*k as u64, Op::Resize(Some(*l), Some(*c)))],
             _ => vec![],
         };
-        let mut obs = StepObs { sp: self, cov, judged: 0, twin: None, twin_prev: None, parser_events: vec![], shadow: vec![] };
+        let mut obs = StepObs { sp: self, cov, judged: 0, twin: None, twin_prev: None, parser_events: vec![], have_snap: true, shadow: vec![] };
         let stats = exec::run_q_inject(trace, &mut obs, &one).map(|x| x.0)?;
         let judged = obs.judged;
         if let [u32::MAX, l, c] = trace.extra.as_slice() {
@@ -786,6 +827,7 @@ impl Property for StepProp {
                         twin: None,
                         twin_prev: None,
                         parser_events: vec![],
+                        have_snap: true,
                         shadow: vec![],
                     };
                     obs.cov.hit("resize_positions_enumerated");
